@@ -332,11 +332,12 @@ impl UintVecMin0 {
         // SAFETY: is_empty() check above guarantees iterator has at least one element
         let &min_val = src.iter().min().unwrap();
         let &max_val = src.iter().max().unwrap();
-        let wire_max = (max_val - min_val) as usize;
+        // in i64: max - min of two i32 can be 2^32 - 1
+        let wire_max = (max_val as i64 - min_val as i64) as usize;
 
         let mut vec = Self::new(src.len(), wire_max);
         for (i, &val) in src.iter().enumerate() {
-            vec.set(i, (val - min_val) as usize);
+            vec.set(i, (val as i64 - min_val as i64) as usize);
         }
 
         (vec, min_val)
@@ -435,7 +436,13 @@ impl UintVecMin0 {
         assert!(bits <= 64, "Bits must be <= 64");
 
         self.bits = bits;
-        self.mask = if bits == 0 { 0 } else { (1usize << bits) - 1 };
+        self.mask = if bits == 0 {
+            0
+        } else if bits >= 64 {
+            usize::MAX // 1 << 64 wraps: the mask was 0 and every set() panicked
+        } else {
+            (1usize << bits) - 1
+        };
         self.size = num;
 
         let mem_size = Self::compute_mem_size(bits, num);
